@@ -143,7 +143,9 @@ def impl(case):
 def model_req(case):
     reqs = []
     for r in case["restrictions"]:
-        reqs.append({"op": "gtRestrict", "samples": case["samples"], "variants": [[v["id"], v["chrom"], v["pos"]] for v in case["variants"]], "region": r["region"], "req_samples": r["samples"], "ids": r["ids"], "max": r["max"]})
+        reqs.append({"op": "gtRestrict", "samples": case["samples"], "variants": [[v["id"], v["chrom"], v["pos"]] for v in case["variants"]], "region": r["region"], "req_samples": r["samples"], "ids": r["ids"], "max": r["max"],
+                     # the cells of the whole file and the requested chunk size: the matrix comes out of PgenMatrix.readSel (Lean)
+                     "data": [[[int(x) for x in c] for c in row] for row in case["data"]], "chunk": r["chunk"]})
     return {"op": "batch", "reqs": reqs}
 
 
@@ -178,6 +180,8 @@ def model_obs(case, resp):
     out = []
     for r, m in zip(case["restrictions"], resp["resps"]):
         e = expected_from(case, m["rows"], m["cols"])
+        if "data" in m:
+            e["data"] = m["data"]  # the model's own matrix (chunked gather over the kept rows and columns), not the harness's
         out.append(norm_read(e))
     return {"expected": out}
 
@@ -437,11 +441,11 @@ def describe_subset(case, obs):
 CHECK = Check(
     id="C08",
     title="Restricted reads equal full read + subset, for VCF and PGEN alike",
-    theorems=["C08.id_scan_eq_filter", "C08.read_restricted_eq_filter", "C08.empty_match", "C08.samples_in_file_order", "C08.subset_sequences_refine_spec", "C08.subset_requested_order"],
+    theorems=["C08.id_scan_eq_filter", "C08.read_restricted_eq_filter", "C08.empty_match", "C08.samples_in_file_order", "C08.subset_sequences_refine_spec", "C08.subset_requested_order", "C08.pgen_restricted_read_is_the_selection", "C08.pgen_restricted_read_eq_full_read_subset", "C08.pgen_restricted_read_chunk_irrelevant"],
     sections=[
         Section(
             name="restricted_reads",
-            theorems=["C08.id_scan_eq_filter", "C08.read_restricted_eq_filter", "C08.empty_match", "C08.samples_in_file_order"],
+            theorems=["C08.id_scan_eq_filter", "C08.read_restricted_eq_filter", "C08.empty_match", "C08.samples_in_file_order", "C08.pgen_restricted_read_is_the_selection", "C08.pgen_restricted_read_eq_full_read_subset", "C08.pgen_restricted_read_chunk_irrelevant"],
             gen=gen,
             impl=impl,
             model_req=model_req,
